@@ -168,6 +168,37 @@ def index_nodes(n, acc):
     return acc
 
 
+class Bomb:
+    """a healthy manager whose ELABORATION fails (registered elaborate_context hook below raises)"""
+
+    def __enter__(self):
+        return self
+
+    def __exit__(self, *a):
+        return False
+
+
+class BombError(Exception):
+    pass
+
+
+@stackscope.elaborate_context.register(Bomb)
+def _elaborate_bomb(mgr, context):
+    raise BombError("elaboration of a sibling context fails")
+
+
+async def carrier_sib(env, root, is_async):
+    """the same carrier, but the frame holds a context whose elaboration FAILS in front of the root's:
+    C09 must hold for the root context all the same (each context of a frame is elaborated on its own)"""
+    with Bomb():
+        if is_async:
+            async with root as v:  # noqa: F841
+                await env.trap()
+        else:
+            with root as v:  # noqa: F841
+                await env.trap()
+
+
 async def carrier(env, root, is_async):
     if is_async:
         async with root as v:  # noqa: F841
@@ -286,6 +317,38 @@ def run_case(case):
                 compare(env, fr.contexts[0], case["expected"], "root", bad)
                 if root["k"] == "stack":
                     check_child_objs(env, fr.contexts[0], root, bad, "root")
+            if not exiting and not bad:
+                # second pass on a fresh build: a sibling context of the same frame whose elaboration fails
+                env2 = Env()
+                env2.nodes = index_nodes(root, {})
+                mgr2 = env2.build(root)
+                co2 = carrier_sib(env2, mgr2, root["async"])
+                co2.send(None)
+                st2 = stackscope.extract(co2)
+                fr2 = st2.frames[0]
+                if not isinstance(st2.error, BombError):
+                    bad.append("sibling fault: Stack.error is %r, expected the sibling's BombError alone" % (st2.error,))
+                if len(fr2.contexts) != 2 or not isinstance(fr2.contexts[0].obj, Bomb):
+                    bad.append("sibling fault: carrier frame contexts %s" % [type(c.obj).__name__ for c in fr2.contexts])
+                else:
+                    compare(env2, fr2.contexts[1], case["expected"], "root (after a sibling context whose elaboration failed)", bad)
+                    if root["k"] == "stack":
+                        check_child_objs(env2, fr2.contexts[1], root, bad, "root (sibling fault)")
+                try:
+                    for _ in range(10):
+                        co2.send(None)
+                except StopIteration:
+                    pass
+                except BaseException as ex:
+                    bad.append("sibling-fault carrier failed to finish: %r" % (ex,))
+                for es in env2.keep:
+                    try:
+                        if hasattr(es, "aclose"):
+                            drive(es.aclose())
+                        else:
+                            es.close()
+                    except BaseException:
+                        pass
             if exiting and root["k"] == "gcm":
                 # the exiting manager's generator frames appear in the main frame series instead
                 names = [f.funcname for f in st.frames]
